@@ -88,6 +88,8 @@ def observer(name, params, returns, reads="*", ensures=(), requires=(), props=()
     contract for them is registered with refines=...; the observer itself is not verified."""
     c = Contract(name, params, returns=returns, requires=requires, ensures=ensures, pure=True, reads=reads,
                  verify=False, observer=True, props=props)
+    if name in CONTRACTS:
+        raise ValueError(f"duplicate contract {name}")
     CONTRACTS[name] = c
     return c
 
